@@ -180,6 +180,36 @@ fn main() {
             mdwh::elfcases::system_files(flag_val(&args.extra, "--sysfiles").unwrap_or(0) as usize, &mut tr);
             mdwh::elfcases::live_mappings(&workdir, &mut tr);
         }
+        "mkelf" => {
+            // mkelf --kind elf|non_elf|elf_corrupt|elf_noid|elf_nosoname --soname NAME --idseed N   (writes to --out)
+            let kind = flag_str(&args.extra, "--kind").unwrap_or_else(|| "elf".into());
+            let mut spec = mdwh::elfgen::Spec::default();
+            if let Some(sn) = flag_str(&args.extra, "--soname") { spec.soname = if sn.is_empty() { None } else { Some(sn) }; }
+            let ids = flag_val(&args.extra, "--idseed").unwrap_or(1);
+            spec.id_ph = (0..20).map(|i| (ids as u8).wrapping_mul(7).wrapping_add(i)).collect();
+            spec.text_fill = ids as u8;
+            if kind == "elf_noid" { spec.ph_note = false; spec.sec_note = false; }
+            if kind == "elf_zeroid" { spec.id_ph = vec![0; 20]; }
+            if kind == "elf_nosoname" { spec.soname = None; }
+            let mut b = mdwh::elfgen::build(&spec);
+            if kind == "elf_corrupt" {
+                mdwh::elfgen::set_field(&mut b, "e_phoff", 0);
+                mdwh::elfgen::set_field(&mut b, "sh3.sh_offset", u64::MAX);
+                mdwh::elfgen::set_field(&mut b, "sh3.sh_size", u64::MAX);
+                mdwh::elfgen::set_field(&mut b, "sh0.sh_name", 0xffff_fff0);
+                mdwh::elfgen::set_field(&mut b, "dyn1.d_val", u64::MAX);
+            }
+            let bytes = if kind == "non_elf" { let mut v = vec![0u8; 0x3000]; rng.fill(&mut v); v } else { b.bytes };
+            drop(tr);
+            std::fs::write(&args.out, &bytes).unwrap_or_else(|e| { eprintln!("{e}"); std::process::exit(2) });
+            let id = mdwh::elfgen::oracle_build_id(&bytes).map(|x| x.0.iter().map(|b| format!("{b:02x}")).collect::<String>());
+            let so = mdwh::elfgen::oracle_soname(&bytes).map(|s| String::from_utf8_lossy(&s).into_owned());
+            println!("{}", serde_json::json!({"len": bytes.len(), "oracle_id": id, "oracle_soname": so}));
+            return;
+        }
+        "pure" => {
+            mdwh::pure::run(args.random, args.seed, &mut tr);
+        }
         "flood" => {
             let workdir = flag_str(&args.extra, "--workdir").unwrap_or_else(|| "/tmp".into());
             let rounds = flag_val(&args.extra, "--rounds").unwrap_or(1);
